@@ -292,10 +292,16 @@ def apply_x7(text, k):
         raise ExtractError('X7: loop #%d not found' % k)
     kw, brace = heads[k]
     m = re.match(r'for\s+(\w+)\s+in\s+&([^\n{]+?)\s*$', text[kw:brace])
+    if m:
+        P, E = m.group(1), m.group(2).strip()
+        new = 'let mut __i%d = 0; while __i%d < %s.len() { let %s = &%s[__i%d]; __i%d += 1;' % (k, k, E, P, E, k, k)
+        return text[:kw] + new + text[brace + 1:]
+    # array literal of Copy values: `for P in [a, b, c] {`
+    m = re.match(r'for\s+(\w+)\s+in\s+(\[[^\n{]+?\])\s*$', text[kw:brace])
     if not m:
-        raise ExtractError('X7: loop #%d is not of the form `for x in &expr {`' % k)
+        raise ExtractError('X7: loop #%d is not of the form `for x in &expr {` or `for x in [..] {`' % k)
     P, E = m.group(1), m.group(2).strip()
-    new = 'let mut __i%d = 0; while __i%d < %s.len() { let %s = &%s[__i%d]; __i%d += 1;' % (k, k, E, P, E, k, k)
+    new = 'let __a%d = %s; let mut __i%d = 0; while __i%d < __a%d.len() { let %s = __a%d[__i%d]; __i%d += 1;' % (k, E, k, k, k, P, k, k, k)
     return text[:kw] + new + text[brace + 1:]
 
 
@@ -633,6 +639,11 @@ def render_const(repo, file, name):
     line = src.count('\n', 0, m.start()) + 1
     info = {'file': file, 'item': 'const ' + name, 'lines': [line, line + text.count('\n')],
             'sha256': hashlib.sha256(text.encode()).hexdigest(), 'rules': {}}
+    if re.search(r':\s*&str\b', text):
+        # rule X8: inside verus! a const of type &str needs its (implied) 'static lifetime spelled out
+        text = re.sub(r':\s*&str\b', ": &'static str", text, count=1)
+        info['rules']['X8'] = "&str -> &'static str"
+
     return [(l, {'kind': 'src', 'file': file, 'line': line + i, 'fn': 'const ' + name}) for i, l in enumerate(text.split('\n'))], info
 
 
@@ -683,6 +694,22 @@ def generate(repo, tmpl_path, probe=False):
                 out.append((parts[1], {'kind': 'src', 'file': parts[0], 'line': hit, 'fn': parts[1]}))
                 items.append({'file': parts[0], 'item': parts[1], 'lines': [hit, hit],
                               'sha256': hashlib.sha256(parts[1].encode()).hexdigest(), 'rules': {}})
+                i += 1
+                continue
+            if d.startswith('consts '):
+                # every module-level scalar / &str constant of the file (so that code which starts to use another one is
+                # still decided instead of rejected)
+                f = d[len('consts '):].strip()
+                src = open(repo + '/' + f).read()
+                code = strip_map(src)
+                n = 0
+                for m in re.finditer(r'^(pub(\([^)]*\))?\s+)?const\s+([A-Z][A-Z0-9_]*)\s*:\s*(usize|u8|u16|u32|u64|u128|isize|i32|i64|bool|&str|&\'static str)\s*=\s*([^;\n]*);', code, re.M):
+                    text = src[m.start():m.end()]
+                    text = re.sub(r':\s*&str\b', ": &'static str", text, count=1)
+                    line = src.count('\n', 0, m.start()) + 1
+                    out.append((text, {'kind': 'src', 'file': f, 'line': line, 'fn': 'const ' + m.group(3)}))
+                    n += 1
+                items.append({'file': f, 'item': 'module-level scalar constants', 'lines': [0, 0], 'sha256': '', 'rules': {'copied': n}})
                 i += 1
                 continue
             if d.startswith('const '):
